@@ -27,10 +27,15 @@ MANIFEST = {
             "character ranges, key-type classes and the 12 integer ranges REGENERATED from the source on every run and proved equal to "
             "hand-written specification tables; per-class state machines (AdministrativeInformation, Entity, AssetInformation, "
             "HasSemantics, BasicEventElement, LangStringSet family, typed value slots, SubmodelElementList add check) are sound, atomic "
-            "and complete w.r.t. the specification predicates for every op sequence from every constructor-accepted state. Gaps of "
+            "and complete w.r.t. the specification predicates for every op sequence from every constructor-accepted state; a "
+            "SubmodelElementList machine whose children are modified WHILE CONTAINED (semantic_id / value_type / id_short setters, "
+            "remove, re-add) keeps AASd-107/108/109/114/120 for every history without value_type assignments; the caller's dict and two "
+            "language string sets built from it are three separate values (frame + soundness for every op on any of them). Gaps of "
             "the code are kept as full statements, proved _partial, with proved negation witnesses = known findings.",
     "note": "decision logic proved for all inputs; tie = exhaustive 22^3*2 (quick) / 22^4*2 (thorough) key chains + boundary strings at "
-            "every entry point + exhaustive short / random long op sequences; str.isalpha/islower/isdecimal and `re` modelled on ASCII "
+            "every entry point + exhaustive short / random long op sequences, incl. setters on contained list children, mutation of "
+            "constructor arguments the caller keeps (lists, dicts, a dict shared by two objects) and the falsy-but-not-None member of "
+            "every value kind (zero durations, 0, False, 0.0, '', b''); str.isalpha/islower/isdecimal and `re` modelled on ASCII "
             "plus sampled non-ASCII code points; requires fixes/C02-*.patch (6 small repairs) to be applied to /repo",
     "technique": "Lean 4 proof (induction over key lists / op sequences, decide for regenerated tables) + differential correspondence + "
                  "Python re-statement of the specification as oracle",
@@ -39,7 +44,11 @@ ASSUMPTIONS = [
     "`re.fullmatch` on the three literal patterns and `str.isalpha/islower/isdecimal` behave as modelled (exact on ASCII; non-ASCII "
     "code points only from the sampled tables in Model/Constraints.lean)",
     "Key values are abstracted to 'denotes a non-negative integer' (all characters Unicode category Nd), computed by the harness",
-    "HasSemantics / Referable machines are driven detached from a namespace (parent is None); namespace re-keying is property C01",
+    "the HasSemantics machine (AASd-118) is driven detached from a namespace (parent is None); the semantic_id setter of a CONTAINED "
+    "element is modelled for children of a SubmodelElementList only (other namespaces: re-keying is property C01); children of the "
+    "list machine carry no supplemental semantic ids",
+    "max_interval is abstracted to 'is not None' (the code tests nothing else); the harness offers None, 5 s and two zero-length "
+    "(falsy) durations",
     "slices are step-less (start:stop); extended slices are outside the modelled op alphabet",
     "neutral zones (not judged by the oracle): bool offered to an integer type, non-ASCII letters in a language code, "
     "subtags after the first '-', single-letter idShort",
@@ -186,6 +195,57 @@ class World:
         self.refs = [model.ExternalReference((model.Key(model.KeyTypes.GLOBAL_REFERENCE, f"r{i}"),)) for i in range(6)]
         self.obj: Dict[str, Any] = {}
         self.meta: Dict[str, Any] = {}
+        self.last_src: Dict[str, Any] = {}     # family -> the last plain `list` object the caller handed to the object
+
+    def contf(self, fam: str, items: list, kind: str):
+        """like `cont`, but remembers a plain list: the CALLER keeps it and may go on mutating it (`<fam>.src` ops)"""
+        c = self.cont(items, kind)
+        if kind == "list":
+            self.last_src[fam] = c
+        return c
+
+    def src_op(self, fam: str, pool, mut):
+        """the caller mutates ITS OWN list after having handed it to a constructor / setter / extend / slice assignment"""
+        l = self.last_src.get(fam)
+        if l is None:
+            return
+        if mut[0] == "append":
+            l.append(pool[mut[1]])
+        elif mut[0] == "clear":
+            l.clear()
+        elif mut[0] == "pop":
+            if l:
+                l.pop()
+        elif mut[0] == "set0":
+            if l:
+                l[0] = pool[mut[1]]
+        else:
+            raise ValueError(mut)
+
+    def sml_mk(self, e):
+        m, dt = self.m, self.dt
+        c, si, vt, has = e
+        kw = {"semantic_id": None if si is None else self.refs[si]}
+        ids = "x" if has else None
+        if c == "Property":
+            return m.Property(ids, getattr(dt, vt), **kw)
+        if c == "Range":
+            return m.Range(ids, getattr(dt, vt), **kw)
+        if c == "Capability":
+            return m.Capability(ids, **kw)
+        if c == "MultiLanguageProperty":
+            return m.MultiLanguageProperty(ids, **kw)
+        ref = m.ModelReference((m.Key(m.KeyTypes.SUBMODEL, "urn:s"),), m.Submodel)
+        if c == "RelationshipElement":
+            return m.RelationshipElement(ids, ref, ref, **kw)
+        return m.AnnotatedRelationshipElement(ids, ref, ref, **kw)
+
+    def kid_view(self, k, sml):
+        ids = k.id_short
+        st = 0 if ids is None else (2 if ids.startswith("generated_submodel_list_hack_") else 1)
+        vt = getattr(k, "value_type", None) if isinstance(k, (self.m.Property, self.m.Range)) else None
+        return [type(k).__name__, None if k.semantic_id is None else self.idx(self.refs, k.semantic_id),
+                None if vt is None else self.type_name(vt), st, k.parent is sml]
 
     # ---- containers for list-valued arguments
     @staticmethod
@@ -223,8 +283,12 @@ class World:
                     [self.idx(self.refs, x) for x in o.supplemental_semantic_id]]
         if fam == "event":
             return [o.direction.name, o.max_interval is not None, stamp_view(o.last_update), enc(o.message_topic)]
-        if fam == "lss":
-            return [[enc(k), enc(v)] for k, v in o.items()]
+        if fam == "lss":      # the first object, the second object (or None), the caller's dict
+            items = lambda d: [[enc(k), enc(v)] for k, v in d.items()]  # noqa
+            return [items(o["a"]), None if o["b"] is None else items(o["b"]), items(o["src"])]
+        if fam == "smlm":
+            sml, kids = o["sml"], o["kids"]
+            return [[next((i for i, k in enumerate(kids) if k is x), -1) for x in sml.value], [self.kid_view(k, sml) for k in kids]]
         if fam == "typed":
             slot = self.meta["typed"]["slot"]
             t = o.value_type
@@ -318,27 +382,31 @@ class World:
         elif fam == "entity":
             if what == "new":
                 self.obj[fam] = m.Entity("e", getattr(m.EntityType, a[0]), global_asset_id=dec(a[1]),
-                                         specific_asset_id=self.cont([self.sids[i] for i in a[2]], ck))
+                                         specific_asset_id=self.contf(fam, [self.sids[i] for i in a[2]], ck))
             elif what == "type":
                 o.entity_type = getattr(m.EntityType, a[0])
             elif what == "gid":
                 o.global_asset_id = dec(a[0])
+            elif what == "src":
+                self.src_op(fam, self.sids, a[0])
             else:
-                self.list_op(o, "specific_asset_id", self.sids, a[0], ck)
+                self.list_op(o, "specific_asset_id", self.sids, a[0], ck, fam)
         elif fam == "asset":
             if what == "new":
-                self.obj[fam] = m.AssetInformation(global_asset_id=dec(a[0]), specific_asset_id=self.cont([self.sids[i] for i in a[1]], ck),
+                self.obj[fam] = m.AssetInformation(global_asset_id=dec(a[0]), specific_asset_id=self.contf(fam, [self.sids[i] for i in a[1]], ck),
                                                    asset_type=dec(a[2]))
             elif what == "gid":
                 o.global_asset_id = dec(a[0])
             elif what == "asset_type":
                 o.asset_type = dec(a[0])
+            elif what == "src":
+                self.src_op(fam, self.sids, a[0])
             else:
-                self.list_op(o, "specific_asset_id", self.sids, a[0], ck)
+                self.list_op(o, "specific_asset_id", self.sids, a[0], ck, fam)
         elif fam == "sem":
             if what == "new":
                 sem = None if a[0] is None else self.refs[a[0]]
-                supp = self.cont([self.refs[i] for i in a[1]], ck)
+                supp = self.contf(fam, [self.refs[i] for i in a[1]], ck)
                 host = meta.get("host", "Extension")
                 if host == "Extension":
                     self.obj[fam] = m.Extension("n", semantic_id=sem, supplemental_semantic_id=supp)
@@ -352,8 +420,10 @@ class World:
                     self.obj[fam] = m.SpecificAssetId("n", "v", semantic_id=sem, supplemental_semantic_id=supp)
             elif what == "sem":
                 o.semantic_id = None if a[0] is None else self.refs[a[0]]
+            elif what == "src":
+                self.src_op(fam, self.refs, a[0])
             else:
-                self.list_op(o, "supplemental_semantic_id", self.refs, a[0], ck)
+                self.list_op(o, "supplemental_semantic_id", self.refs, a[0], ck, fam)
         elif fam == "event":
             if what == "new":
                 ref = m.ModelReference((m.Key(m.KeyTypes.SUBMODEL, "urn:s"),), m.Submodel)
@@ -369,8 +439,27 @@ class World:
                 o.message_topic = dec(a[0])
         elif fam == "lss":
             if what == "new":
-                self.obj[fam] = getattr(m, a[0])({dec(k): dec(v) for k, v in a[1]})
-            elif what == "set":
+                src = {dec(k): dec(v) for k, v in a[1]}        # ONE dict object: the caller keeps it (`lss.src.*`, `lss.new2`)
+                self.obj[fam] = {"src": src, "a": getattr(m, a[0])(src), "b": None}
+                return
+            if what == "new2":                                   # a second object from the same dict / from the first object
+                o["b"] = getattr(m, a[0])(o["a"] if a[1] else o["src"])
+                return
+            if what.startswith("src."):
+                if what == "src.set":
+                    o["src"][dec(a[0])] = dec(a[1])
+                elif what == "src.del":
+                    o["src"].pop(dec(a[0]), None)
+                else:
+                    o["src"].clear()
+                return
+            if what.startswith("o2."):
+                what, o = what[3:], o["b"]
+                if o is None:
+                    return
+            else:
+                o = o["a"]
+            if what == "set":
                 o[dec(a[0])] = dec(a[1])
             elif what == "del":
                 del o[dec(a[0])]
@@ -382,8 +471,38 @@ class World:
                 o.setdefault(dec(a[0]), dec(a[1]))
             elif what == "pop":
                 o.pop(dec(a[0]))
-            else:
+            elif what == "popitem":
                 o.popitem()
+            else:
+                raise ValueError(op)
+        elif fam == "smlm":
+            if what == "new":
+                kids = [self.sml_mk(e) for e in a[3]]
+                sml = m.SubmodelElementList("l", getattr(m, a[0]), kids, semantic_id_list_element=None if a[1] is None else self.refs[a[1]],
+                                            value_type_list_element=None if a[2] is None else getattr(dt, a[2]))
+                self.obj[fam] = {"sml": sml, "kids": kids}
+                return
+            sml, kids = o["sml"], o["kids"]
+            if what == "add":
+                kids.append(self.sml_mk(a[0]))
+                sml.value.add(kids[-1])
+                return
+            if a[0] >= len(kids):
+                return
+            kid = kids[a[0]]
+            if what == "readd":
+                sml.value.add(kid)
+            elif what == "setsem":
+                kid.semantic_id = None if a[1] is None else self.refs[a[1]]
+            elif what == "setvt":
+                if isinstance(kid, (m.Property, m.Range)):
+                    kid.value_type = None if a[1] is None else getattr(dt, a[1])
+            elif what == "setid":
+                kid.id_short = "x" if a[1] else None
+            elif what == "remove":
+                sml.value.remove(kid)
+            else:
+                raise ValueError(op)
         elif fam == "typed":
             slot = self.meta[fam]["slot"]
             host = self.meta[fam]["host"]
@@ -405,7 +524,7 @@ class World:
         else:
             raise ValueError(op)
 
-    def list_op(self, o, attr, pool, lop, ck):
+    def list_op(self, o, attr, pool, lop, ck, fam="?"):
         l = getattr(o, attr)
         k = lop[0]
         if k == "insert":
@@ -413,14 +532,14 @@ class World:
         elif k == "append":
             l.append(pool[lop[1]])
         elif k == "extend":
-            l.extend(self.cont([pool[i] for i in lop[1]], ck))
+            l.extend(self.contf(fam, [pool[i] for i in lop[1]], ck))
         elif k == "iadd":
             l += self.cont([pool[i] for i in lop[1]], ck)
             setattr(o, attr, l)                      # what `o.attr += xs` does after __iadd__
         elif k == "setitem":
             l[lop[1]] = pool[lop[2]]
         elif k == "setslice":
-            l[lop[1]:lop[2]] = self.cont([pool[i] for i in lop[3]], ck)
+            l[lop[1]:lop[2]] = self.contf(fam, [pool[i] for i in lop[3]], ck)
         elif k == "delitem":
             del l[lop[1]]
         elif k == "delslice":
@@ -432,7 +551,7 @@ class World:
         elif k == "remove":
             l.remove(pool[lop[1]])
         elif k == "assign":
-            setattr(o, attr, self.cont([pool[i] for i in lop[1]], ck))
+            setattr(o, attr, self.contf(fam, [pool[i] for i in lop[1]], ck))
         else:
             raise ValueError(lop)
 
@@ -456,9 +575,16 @@ def stamp_view(v):
     return ["aware", int(off.total_seconds()), v.tzname() == "UTC"]
 
 
-def interval_make(present: bool):
-    import dateutil.relativedelta
-    return dateutil.relativedelta.relativedelta(seconds=5) if present else None
+def interval_make(arg):
+    """None / False -> None; True -> 5 s; "zero" -> a zero-length duration (falsy!); "zero-arith" -> 1 h - 60 min (zero, falsy)"""
+    from dateutil.relativedelta import relativedelta
+    if arg is None or arg is False:
+        return None
+    if arg == "zero":
+        return relativedelta()
+    if arg == "zero-arith":
+        return relativedelta(hours=1) - relativedelta(minutes=60)
+    return relativedelta(seconds=5)
 
 
 def pyval_make(j):
@@ -468,12 +594,13 @@ def pyval_make(j):
         return int(j[1])
     if k == "bool":
         return bool(j[1])
+    # a trailing "zero" / "empty" selects the FALSY member of the kind (`if value:` differs from `if value is not None:`)
     if k == "float":
-        return 1.5
+        return 0.0 if len(j) > 1 else 1.5
     if k == "str":
-        return "a\tb" if j[1] else "ab"
+        return "" if len(j) > 2 else ("a\tb" if j[1] else "ab")
     if k == "bytes":
-        return b"xy"
+        return b"" if len(j) > 1 else b"xy"
     if k == "date":
         return datetime.date(2020, 1, 2)
     if k == "datetime":
@@ -701,7 +828,7 @@ def gen_histories(ctx: C.Ctx) -> List[List[list]]:
     quick = ctx.tier == "quick"
 
     def with_cont(line: list) -> list:
-        return line + [{"cont": rng.choice(CONTS)}]
+        return line + [{"cont": rng.choice(CONTS + ["list"])}]
 
     # ---- Entity: every (type x gid? x sids empty?) x every op order (exhaustive depth 2 / 3) + random long
     ent_ops = ([["entity.type", t] for t in ("SELF_MANAGED_ENTITY", "CO_MANAGED_ENTITY")]
@@ -727,9 +854,12 @@ def gen_histories(ctx: C.Ctx) -> List[List[list]]:
                 h.append(["entity.type", rng.choice(["SELF_MANAGED_ENTITY", "CO_MANAGED_ENTITY"])])
             elif r < 0.35:
                 h.append(["entity.gid", enc(rng.choice(STR_G))])
+            elif r < 0.45:
+                h.append(["entity.src", rng.choice(SRC_MUTS)])
             else:
                 h.append(with_cont(["entity.list", rand_list_op(rng)]))
         H.append(h)
+    H += aliasing_histories("entity", [c for c in ctors if c[2] is None or c[2] == enc("g")])
 
     # ---- AssetInformation
     as_ops = [["asset.gid", enc(g)] for g in (None, "g", "")] + [["asset.asset_type", enc(g)] for g in (None, "t", "")] \
@@ -748,9 +878,12 @@ def gen_histories(ctx: C.Ctx) -> List[List[list]]:
                 h.append(["asset.gid", enc(rng.choice(STR_G))])
             elif r < 0.3:
                 h.append(["asset.asset_type", enc(rng.choice(STR_G))])
+            elif r < 0.4:
+                h.append(["asset.src", rng.choice(SRC_MUTS)])
             else:
                 h.append(with_cont(["asset.list", rand_list_op(rng)]))
         H.append(h)
+    H += aliasing_histories("asset", [c for c in as_ctors if (c[1] is None or c[1] == enc("g")) and c[3] is None])
 
     # ---- HasSemantics on five host classes
     sem_ops = [["sem.sem", r] for r in (None, 0, 1)] + [["sem.list", l] for l in list_ops()]
@@ -768,11 +901,17 @@ def gen_histories(ctx: C.Ctx) -> List[List[list]]:
         h = [["sem.new", rng.choice([None, 0, 1]), [rng.randrange(6) for _ in range(rng.choice([0, 0, 1, 2]))],
               {"host": host, "cont": rng.choice(CONTS)}]]
         for _ in range(rng.randint(3, 12)):
-            if rng.random() < 0.3:
+            r = rng.random()
+            if r < 0.3:
                 h.append(["sem.sem", rng.choice([None, None, 0, 1])])
+            elif r < 0.4:
+                h.append(["sem.src", rng.choice(SRC_MUTS)])
             else:
                 h.append(with_cont(["sem.list", rand_list_op(rng)]))
         H.append(h)
+    for host in ("Extension", "Qualifier", "Property", "Submodel", "SpecificAssetId"):
+        H += aliasing_histories("sem", [["sem.new", sem, supp, {"host": host}] for sem in (None, 0) for supp in ([], [1], [1, 2])],
+                                immutable=(host == "SpecificAssetId"), setters=[["sem.sem", None], ["sem.sem", 1]])
 
     # ---- AdministrativeInformation
     vp = [None, "", "0", "1", "01", "9999", "10000", "a", "١"]
@@ -791,14 +930,19 @@ def gen_histories(ctx: C.Ctx) -> List[List[list]]:
     # ---- BasicEventElement
     stamps = [None, ["naive"], ["aware", 0, True], ["aware", 0, False], ["aware", 3600, True], ["aware", 3600, False],
               ["aware", -1, True], ["aware", 1, False], ["aware", -86399, False]]
-    ev_ops = [["event.direction", d] for d in ("INPUT", "OUTPUT")] + [["event.max_interval", p] for p in (True, False)] \
-        + [["event.last_update", s] for s in stamps] + [["event.topic", enc(t)] for t in (None, "t", "", "t" * 256)]
-    ev_ctors = [["event.new", d, enc(t), s, mi] for d in ("INPUT", "OUTPUT") for t in (None, "t", "") for s in stamps for mi in (True, False)]
+    # max_interval values: None, an ordinary duration, and the durations that are FALSY in Python (zero length, written directly
+    # and as the result of duration arithmetic) — `if self.max_interval:` and `if self.max_interval is not None:` differ on them
+    ev_dir = [["event.direction", d] for d in ("INPUT", "OUTPUT")]
+    ev_mi = [["event.max_interval", p] for p in (True, False, "zero", "zero-arith")]
+    ev_lu = [["event.last_update", s] for s in stamps]
+    ev_ops = ev_dir + ev_mi + ev_lu + [["event.topic", enc(t)] for t in (None, "t", "", "t" * 256)]
+    ev_ctors = [["event.new", d, enc(t), s, mi] for d in ("INPUT", "OUTPUT") for t in (None, "t", "") for s in stamps
+                for mi in (True, False, "zero", "zero-arith")]
     for c in ev_ctors:
         H.append([c])
-    for c in [["event.new", d, None, None, mi] for d in ("INPUT", "OUTPUT") for mi in (True, False)]:
+    for c in [["event.new", d, None, None, mi] for d in ("INPUT", "OUTPUT") for mi in (True, False, "zero")]:
         for L in range(1, 3 if quick else 4):
-            for seq in itertools.product(ev_ops if L < 3 else ev_ops[:6] + ev_ops[8:11], repeat=L):
+            for seq in itertools.product(ev_ops if L < 3 else ev_dir + ev_mi + ev_lu[:2] + ev_lu[4:7], repeat=L):
                 H.append([c] + [list(o) for o in seq])
 
     # ---- LangStringSet family
@@ -820,10 +964,35 @@ def gen_histories(ctx: C.Ctx) -> List[List[list]]:
                 H.append([c, o])
             for _ in range(ctx.budget(60, 1500)):
                 H.append([c] + [rng.choice(ops) for _ in range(rng.randint(2, 8))])
+        # the dict handed to the constructor stays in the caller's hands (`lss.src.*`) and is handed to a SECOND constructor
+        # (`lss.new2 cls2 False`), or the first object itself is (`lss.new2 cls2 True`): an accepted operation on one of the
+        # three must leave the other two conforming to THEIR class
+        for cls2 in ["LangStringSet"] + list(SPEC_LANG):
+            mx2 = SPEC_LANG.get(cls2, (0, 5))[1]
+            t2 = ["a", "a" * mx2, "a" * (mx2 + 1), "a" * (mx + 1), ""]
+            a_ops = [["lss.set", enc(k), enc(v)] for k in ("de", "E") for v in ("a", "a" * mx, "a" * (mx2 + 1))] \
+                + [["lss.del", enc("en")], ["lss.pop", enc("en")], ["lss.popitem"], ["lss.update", [[enc("de"), enc("a" * (mx2 + 1))]]]]
+            b_ops = [["lss.o2.set", enc(k), enc(v)] for k in ("de", "en", "E") for v in t2] \
+                + [["lss.o2.del", enc("en")], ["lss.o2.pop", enc("en")], ["lss.o2.popitem"], ["lss.o2.clear"],
+                   ["lss.o2.update", [[enc("de"), enc("a" * (mx + 1))]]], ["lss.o2.setdefault", enc("de"), enc("a" * (mx + 1))]]
+            s_ops = [["lss.src.set", enc(k), enc(v)] for k, v in (("fr", "x"), ("E", "x"), ("EN_us", "x"), ("en", "a" * (mx + 1)), ("en", ""))] \
+                + [["lss.src.del", enc("en")], ["lss.src.del", enc("de")], ["lss.src.clear"]]
+            for d in ([["en", "a"]], [["en", "a"], ["de", "b"]]):
+                c = ["lss.new", cls, [[enc(k), enc(v)] for k, v in d]]
+                for o in s_ops:
+                    H.append([c, o])
+                for from_obj in (False, True):
+                    n2 = ["lss.new2", cls2, from_obj]
+                    for o in a_ops + b_ops + s_ops:
+                        H.append([c, n2, o])
+                    for _ in range(ctx.budget(4, 100)):
+                        H.append([c] + [rng.choice(a_ops + s_ops) for _ in range(rng.randint(0, 2))] + [n2]
+                                 + [rng.choice(a_ops + b_ops + s_ops) for _ in range(rng.randint(2, 6))])
 
     # ---- typed slots
     vals: List[Any] = [None, ["bool", True], ["bool", False], ["float"], ["str", False], ["str", True], ["bytes"], ["date"], ["datetime"],
-                       ["other"], ["int", 0], ["int", 5], ["int", -5]]
+                       ["other"], ["int", 0], ["int", 5], ["int", -5],
+                       ["float", "zero"], ["str", False, "empty"], ["bytes", "empty"]]      # falsy, but not None
     for n, (lo, hi) in XSD_RANGES.items():
         for b in (lo, hi):
             if b is not None:
@@ -835,18 +1004,117 @@ def gen_histories(ctx: C.Ctx) -> List[List[list]]:
         meta = {"host": host, "slot": slot}
         for t in XSD_TYPES + ([None] if host == "Extension" else []):
             for vi, v in enumerate(vals):
-                if quick and host != "Property" and (vi + hi_) % 4:
+                if quick and host != "Property" and (vi + hi_) % 4 and v not in FALSY_VALS:
                     continue
                 H.append([["typed.new", t, v, meta]])
         for _ in range(ctx.budget(150, 4000)):
             t = rng.choice(XSD_TYPES)
-            h = [["typed.new", t, rng.choice(vals), meta]]
+            h = [["typed.new", t, rng.choice(FALSY_VALS if rng.random() < 0.25 else vals), meta]]
             for _ in range(rng.randint(2, 6)):
                 if rng.random() < 0.25:
                     h.append(["typed.value_type", rng.choice(XSD_TYPES + ([None] if host == "Extension" else []))])
                 else:
-                    h.append(["typed.value", rng.choice(vals)])
+                    h.append(["typed.value", rng.choice(FALSY_VALS if rng.random() < 0.25 else vals)])
             H.append(h)
+    H += gen_smlm(ctx, rng)
+    return H
+
+
+# values that are falsy in Python without being None: every `if value is None` / `is not None` test must not be a truthiness test
+FALSY_VALS = [["int", 0], ["bool", False], ["float", "zero"], ["str", False, "empty"], ["bytes", "empty"]]
+SRC_MUTS = [["append", 2], ["append", 0], ["clear"], ["pop"], ["set0", 3]]
+
+
+def aliasing_histories(fam: str, ctors: List[list], immutable: bool = False, setters: List[list] = ()) -> List[List[list]]:
+    """The caller hands a plain list to the constructor / the attribute setter / extend / a slice assignment, KEEPS it and mutates it
+    afterwards (`<fam>.src`).  Every class copies what it validated, so the object must not move — and must stay conforming."""
+    H: List[List[list]] = []
+    hand_over = [["assign", []], ["assign", [0]], ["assign", [1, 2]], ["extend", [1]], ["extend", [1, 2]], ["setslice", 0, 1, [1, 2]],
+                 ["setslice", None, None, [0]], ["iadd", [2]]]
+    if immutable:
+        hand_over = [l for l in hand_over if l[0] not in ("assign", "iadd")]
+    for c in ctors:
+        meta = next((a for a in c if isinstance(a, dict)), {})
+        c = [a for a in c if not isinstance(a, dict)] + [dict(meta, cont="list")]
+        for mut in SRC_MUTS:
+            H.append([c, [f"{fam}.src", mut]])
+            for st in setters:
+                if not immutable:
+                    H.append([c, list(st), [f"{fam}.src", mut]])
+            for lop in hand_over:
+                H.append([c, [f"{fam}.list", lop, {"cont": "list"}], [f"{fam}.src", mut]])
+    return H
+
+
+def gen_smlm(ctx: C.Ctx, rng: random.Random) -> List[List[list]]:
+    """SubmodelElementList histories in which children are modified AFTER they were put into the list: whatever the list enforces on
+    insertion (AASd-107/108/109/114/120) has to hold after every later accepted setter call on a member, too."""
+    H: List[List[list]] = []
+    quick = ctx.tier == "quick"
+
+    def el(tv, vt, si, cls=None, evt=None, has=False):
+        c = cls or tv
+        return [c, si, (evt or vt or "Int") if c in ("Property", "Range") else None, has]
+
+    cfgs = [("Property", None, "Int"), ("Property", 0, "Int"), ("MultiLanguageProperty", None, None), ("MultiLanguageProperty", 1, None),
+            ("Range", 1, "String"), ("Capability", None, None)]
+    for tv, sil, vt in cfgs:
+        inits = [[], [None], [sil if sil is not None else 0], [0, 0] if sil in (None, 0) else [1, 1], [None, sil if sil is not None else 0],
+                 [None, None], [1, None, 1] if sil in (None, 1) else [0, None, 0]]
+        ops = [["smlm.setsem", t, r] for t in (0, 1, 2) for r in (None, 0, 1)] \
+            + [["smlm.setvt", t, v] for t in (0, 1) for v in ("Int", "String")] + [["smlm.setid", t, u] for t in (0, 1) for u in (True, False)] \
+            + [["smlm.remove", t] for t in (0, 1, 2)] + [["smlm.readd", t] for t in (0, 1)] \
+            + [["smlm.add", e] for e in (el(tv, vt, None), el(tv, vt, 0), el(tv, vt, 1), el(tv, vt, None, cls="Capability" if tv != "Capability"
+                                         else "Property"), el(tv, vt, None, evt="String" if vt != "String" else "Int"), el(tv, vt, None, has=True))]
+        core = [o for o in ops if o[0] in ("smlm.setsem", "smlm.remove", "smlm.readd") or (o[0] == "smlm.add" and o[1][3] is False)]
+        for init in inits:
+            c = ["smlm.new", tv, sil, vt, [el(tv, vt, si) for si in init]]
+            H.append([c])
+            for o in ops:
+                H.append([c, o])
+            for o1 in core:
+                for o2 in (core if (not quick or o1[0] == "smlm.setsem") else [o for o in core if o[0] == "smlm.setsem"]):
+                    H.append([c, o1, o2])
+        # constructor: every single deviation
+        for bad in (el(tv, vt, None, has=True), el(tv, vt, None, cls="Capability" if tv != "Capability" else "Property"),
+                    el(tv, vt, None, evt="String" if vt != "String" else "Int"), el(tv, vt, 1 if sil != 1 else 0)):
+            H.append([["smlm.new", tv, sil, vt, [el(tv, vt, sil), bad]]])
+            H.append([["smlm.new", tv, sil, vt, [bad, el(tv, vt, 0)]]])
+        if tv in ("Property", "Range"):
+            H.append([["smlm.new", tv, sil, None, []]])
+    classes = ["Property", "Range", "Capability", "MultiLanguageProperty", "RelationshipElement", "AnnotatedRelationshipElement"]
+    for k in range(ctx.budget(1200, 20000)):
+        tv = rng.choice(classes)
+        vt = rng.choice(["Int", "String"]) if tv in ("Property", "Range") else None
+        sil = rng.choice([None, None, 0, 1])
+        base = sil if sil is not None else rng.choice([0, 1])     # the id most children agree on (rejected assignments are the minority)
+        with_vt = k % 3 == 0          # two thirds of the histories leave `value_type` alone (it is a known gap that would mask the rest)
+
+        def rel():
+            si = rng.choice([None, base, base, base, 1 - base])
+            if rng.random() < 0.9:
+                return el(tv, vt, si, has=rng.random() < 0.05)
+            return el(tv, vt, si, cls=rng.choice(classes), evt=rng.choice(["Int", "String"]))
+        init = [el(tv, vt, rng.choice([None, base])) for _ in range(rng.choice([0, 1, 2, 2, 3, 4]))]
+        h = [["smlm.new", tv, sil, vt, init]]
+        n = len(init)
+        for _ in range(rng.randint(2, 9)):
+            r = rng.random()
+            t = rng.randrange(n + 1)
+            if r < 0.2:
+                h.append(["smlm.add", rel()])
+                n += 1
+            elif r < 0.6:
+                h.append(["smlm.setsem", t, rng.choice([None, base, base, base, 1 - base, 2])])
+            elif r < 0.7:
+                h.append(["smlm.setvt", t, rng.choice(["Int", "String"])] if with_vt else ["smlm.setsem", t, base])
+            elif r < 0.78:
+                h.append(["smlm.setid", t, rng.random() < 0.5])
+            elif r < 0.9:
+                h.append(["smlm.remove", t])
+            else:
+                h.append(["smlm.readd", t])
+        H.append(h)
     return H
 
 
@@ -893,14 +1161,26 @@ def spec_state_violations(w: World, fam: str) -> List[str]:
         if not str_ok("message_topic_type", o.message_topic):
             v.append("message-topic-type")
     elif fam == "lss":
-        if len(o) < 1:
-            v.append("empty")
-        cls = type(o).__name__
-        for k, t in o.items():
-            if lang_code_judgeable(k) and not tag_ok(k):
-                v.append("language-tag")
-            if cls in SPEC_LANG and not str_ok(cls, t, SPEC_LANG):
-                v.append("text-limits")
+        # BOTH language string sets, each against the limits of ITS OWN class, whichever of them (or the caller's dict) was operated on
+        for which, x in (("", o["a"]), ("second-object:", o["b"])):
+            if x is None:
+                continue
+            if len(x) < 1:
+                v.append(which + "empty")
+            cls = type(x).__name__
+            for k, t in x.items():
+                if lang_code_judgeable(k) and not tag_ok(k):
+                    v.append(which + "language-tag")
+                if cls in SPEC_LANG and not str_ok(cls, t, SPEC_LANG):
+                    v.append(which + "text-limits")
+    elif fam == "smlm":
+        sml = o["sml"]
+        v += sml_violations(w, sml, None)
+        for x in sml.value:
+            if x.id_short is None or not x.id_short.startswith("generated_submodel_list_hack_"):
+                v.append("aasd120")
+            if x.parent is not sml:
+                v.append("child-without-parent")
     elif fam == "typed":
         slot = w.meta["typed"]["slot"]
         val = getattr(o, slot)
@@ -945,6 +1225,17 @@ def snapshot(w: World, fam: str):
     return json.dumps(w.view(fam), sort_keys=True)
 
 
+def expected_after_raise(pre: str, line: list) -> str:
+    """What the public view must be after a call that raised: the view before the call.  (`smlm.add` brings its own new,
+    still detached child with it: that child is listed, exactly as it was built.)"""
+    if line[0] == "smlm.add":
+        v = json.loads(pre)
+        c, si, vt, has = line[1]
+        v[1].append([c, si, vt if c in ("Property", "Range") else None, 1 if has else 0, False])
+        return json.dumps(v, sort_keys=True)
+    return pre
+
+
 def judge_history(h: List[list]) -> Tuple[List[Any], Optional[C.Failing]]:
     """Run one history on the implementation; return its outputs and the first oracle failure (if any)."""
     w = World()
@@ -958,7 +1249,7 @@ def judge_history(h: List[list]) -> Tuple[List[Any], Optional[C.Failing]]:
         if fail is not None or r == ["no-object"]:
             continue
         op = line[0]
-        entry = op if op != f"{fam}.list" else f"{fam}.list.{line[1][0]}"
+        entry = op if op not in (f"{fam}.list", f"{fam}.src") else f"{op}.{line[1][0]}"
         host = next((a.get("host") for a in line[1:] if isinstance(a, dict) and "host" in a), None) or w.meta.get(fam, {}).get("host")
         tagp = f"{host}:" if host and fam in ("sem", "typed") else ""
         if r[0] == ["ok"]:
@@ -967,7 +1258,7 @@ def judge_history(h: List[list]) -> Tuple[List[Any], Optional[C.Failing]]:
                 fail = C.Failing(f"{tagp}{entry}:accepted:{bad[0]}", f"{line[:3]} accepted, object then violates {bad}: {w.view(fam)}",
                                  h[: i + 1], w.view(fam), "raise or a conforming object")
         else:
-            if pre is not None and snapshot(w, fam) != pre:
+            if pre is not None and snapshot(w, fam) != expected_after_raise(pre, line):
                 fail = C.Failing(f"{tagp}{entry}:raised:not-atomic", f"{line[:3]} raised {r[0]} but changed the object: {pre} -> {snapshot(w, fam)}",
                                  h[: i + 1], snapshot(w, fam), pre)
             elif r[0][1] not in ("AASCV", "ValueError", "TypeError", "KeyError", "IndexError"):
@@ -1162,7 +1453,7 @@ def run_all(ctx: C.Ctx):
     nontrivial = set()
 
     def note(line, r):
-        op = line[0] if line[0] not in ("entity.list", "asset.list", "sem.list") else line[0] + "." + line[1][0]
+        op = line[0] if line[0] not in ("entity.list", "asset.list", "sem.list", "entity.src", "asset.src", "sem.src") else line[0] + "." + line[1][0]
         o = r[0] if (isinstance(r, list) and r and isinstance(r[0], list)) else r
         tag = "ok" if o == ["ok"] else (":".join(str(x) for x in o[1:]) if isinstance(o, list) else str(o))
         hist[f"{op}:{tag}"] = hist.get(f"{op}:{tag}", 0) + 1
@@ -1242,7 +1533,11 @@ def correspond(ctx: C.Ctx, cov: C.Coverage) -> List[C.Disagreement]:
                 "with neighbours at every entry point (constructor and setter); key chains: exhaustive to length "
                 f"{R['maxL']} x 2 value classes + random chains to length 8; machines: exhaustive op sequences to depth 2 (3 thorough) from "
                 "every constructor combination + seeded random sequences to length 12, list arguments passed as list/tuple/iterator/"
-                "generator. non-trivial = a call that raises, or a stateless boundary case; distinct by (op, outcome, case hash)")
+                "generator; plain lists / dicts handed to constructors, setters, extend, slice assignment are KEPT by the harness and "
+                "mutated afterwards (`*.src`), one dict is handed to two language-string-set constructors (6x6 class pairs); "
+                "SubmodelElementList histories modify children after insertion (semantic_id, value_type, id_short, remove, re-add: "
+                "exhaustive depth 1-2 over 6 configurations x 7 initial lists + seeded random to length 9); max_interval and typed values "
+                "include the falsy member of every kind. non-trivial = a call that raises, or a stateless boundary case; distinct by (op, outcome, case hash)")
     cov.evaluations = len(R["lines"]) + R["enum"]
     cov.nontrivial = R["nontrivial"]
     cov.histogram = R["hist"]
@@ -1290,6 +1585,9 @@ def _minimise(f: C.Failing) -> C.Failing:
         if len(tail) > 1:
             tail = C.ddmin(tail, fails)
             f.case = [head] + tail
+        hist = json.dumps([[x for x in l if not isinstance(x, dict)] for l in f.case])
+        if len(hist) <= 400 and "| history: " not in f.what:
+            f.what += " | history: " + hist
     return f
 
 
